@@ -240,7 +240,7 @@ func c39() {
 	run.Bounds["limit"] = "0..n+1"
 	run.Bounds["percent"] = "{0,.25,.5,.75,1} ({0,.5,1} for 6 candidates)"
 	run.Bounds["seeds"] = "0..63"
-	run.Rule = "complete product: candidates 1..N x stake vectors x previous-set subsets x limits x percentages x seeds, seeds 0..7 of every layout re-evaluated under every map iteration order of the seam; distinct = distinct (layout, set of selections over the seeds)"
+	run.Rule = "complete product: candidates 1..N x stake vectors x previous-set subsets x limits x percentages x seeds, seeds 0..3 of every layout re-evaluated under every map iteration order of the seam; distinct = distinct (layout, set of selections over the seeds)"
 
 	t0 := time.Now()
 	var layouts []c39Layout
@@ -298,7 +298,7 @@ func c39() {
 	run.Extra["layouts_family_a"] = famA
 	run.Extra["layouts_family_b"] = len(layouts) - famA
 	run.Bounds["family_b"] = fmt.Sprintf("6..%d candidates, every stake vector over {0,1,2}, previous set in {none, lowest id, highest id, two middle ids}, limit 3..5, percent {0,.5}, seeds 0..15 (validity and function-of-inputs clauses)", run.Pick(6, 8))
-	run.Bounds["map_iteration_orders"] = "every order the map seam can produce for the candidate map (n! for n<=3, the 2n rotations of the sorted and the reversed order above), for seeds 0..7 of every layout"
+	run.Bounds["map_iteration_orders"] = "every order the map seam can produce for the candidate map (n! for n<=3, the 2n rotations of the sorted and the reversed order above), for seeds 0..3 of every layout"
 
 	// the map-iteration seam must reach the `range sns` site of reduce, otherwise the
 	// function-of-inputs clause could not be decided
@@ -379,7 +379,7 @@ func c39() {
 	run.Finish()
 }
 
-const c39OrderSeeds = 8
+const c39OrderSeeds = 4
 
 // c39SeamSite returns the maporder-seam site record of the candidate loop in reduce ("" if absent).
 func c39SeamSite() string {
@@ -404,7 +404,7 @@ func c39SeamSite() string {
 	return ""
 }
 
-// c39CheckOrder re-evaluates seeds 0..7 of a layout under map iteration order c.
+// c39CheckOrder re-evaluates seeds 0..3 of a layout under map iteration order c.
 func c39CheckOrder(run *ev.Run, li int, l c39Layout, c int, base *[c39OrderSeeds]int16, report func(int, string, string, any)) {
 	for seed := int64(0); seed < c39OrderSeeds && seed < int64(l.Seeds); seed++ {
 		_, sel, perr := c39Run(l, seed)
@@ -523,6 +523,16 @@ func c39CheckLayout(run *ev.Run, li int, l c39Layout, base *[c39OrderSeeds]int16
 // ---------------------------------------------------------------------------------------------
 // callers
 
+// c39Safe turns a panic of the called repository code into an error.
+func c39Safe(f func() error) (err error) {
+	defer func() {
+		if p := recover(); p != nil {
+			err = fmt.Errorf("panic: %v", p)
+		}
+	}()
+	return f()
+}
+
 func c39Callers(run *ev.Run) {
 	// real node pools of the "previous magic block"
 	mkPool := func(typ node.NodeType, n int, mask int) (*node.Pool, []string) {
@@ -600,7 +610,7 @@ func c39Callers(run *ev.Run) {
 						for i, id := range ids {
 							dkg.SimpleNodes[id] = c39SN(id, st[i])
 						}
-						if err := dkg.VerifStructsReduceNodes(true, gn, ctx); err != nil {
+						if err := c39Safe(func() error { return dkg.VerifStructsReduceNodes(true, gn, ctx) }); err != nil {
 							run.Violation("C39:reduceNodes:error", fmt.Sprintf("%v: %v", l, err), replay)
 						} else {
 							var got []string
@@ -619,7 +629,7 @@ func c39Callers(run *ev.Run) {
 						for i, id := range ids {
 							dkg2.SimpleNodes[id] = c39SN(id, st[i])
 						}
-						if err := dkg2.VerifStructsReduceNodes(false, gn, ctx); err != nil || len(dkg2.SimpleNodes) != n {
+						if err := c39Safe(func() error { return dkg2.VerifStructsReduceNodes(false, gn, ctx) }); err != nil || len(dkg2.SimpleNodes) != n {
 							run.Violation("C39:reduceNodes:non-final-call-changes-list", fmt.Sprintf("%v: err=%v size=%d", l, err, len(dkg2.SimpleNodes)), replay)
 						}
 
